@@ -662,7 +662,7 @@ pub fn run(ctx: &Ctx) {
             |d| json!({"type": ty_name(ty), "doc": d.to_json()}),
             |d| {
                 ctx.class(&format!("valid:{}", ty_name(ty)));
-                if hash_of(&emit_doc(d)) % 17 == 0 && d.depth() >= 3 {
+                if (ctx.samples_len() < 2 || hash_of(&emit_doc(d)) % 17 == 0) && d.depth() >= 3 {
                     ctx.sample(9, || json!({"type": ty_name(ty), "valid_document": emit_doc(d)}));
                 }
                 check_doc(ctx, ty, d)
